@@ -4,6 +4,7 @@ replay files, evidence.  Nothing in here knows about a particular property."""
 from __future__ import annotations
 
 import collections
+import contextlib
 import hashlib
 import json
 import math
@@ -284,10 +285,132 @@ MAX_VIOL_PER_SHARD = int(os.environ.get("VP_MAX_VIOL_PER_SHARD", "3"))
 SHRINK_BUDGET_S = float(os.environ.get("VP_SHRINK_BUDGET_S", "8"))
 
 
+# --------------------------------------------------------------------------
+# interpreter environments: the properties do not depend on them
+# --------------------------------------------------------------------------
+ENVS = ("warn-error", "warn-always", "log-debug", "decimal-ctx", "tz-dst")
+CURRENT_ENV = [None]
+_LOGBUF = []
+
+
+@contextlib.contextmanager
+def environment(name):
+    """Run a case under a non-default interpreter state that an application may
+    legitimately have set up: warnings promoted to errors / always shown, DEBUG
+    logging enabled for the three packages (records go to a memory handler), a
+    coarse decimal context with another rounding mode, a process time zone with
+    daylight saving.  Everything is restored afterwards."""
+    import logging
+
+    prev = CURRENT_ENV[0]
+    CURRENT_ENV[0] = name
+    try:
+        if name in ("warn-error", "warn-always"):
+            import warnings
+
+            with warnings.catch_warnings():
+                warnings.simplefilter("error" if name == "warn-error" else "always")
+                yield
+        elif name == "log-debug":
+            class Mem(logging.Handler):
+                def emit(self, record):
+                    try:
+                        _LOGBUF.append(record.getMessage()[:80])
+                    except Exception as err:  # noqa - formatting a record must not fail either
+                        _LOGBUF.append(f"<unformattable record: {err!r}>")
+                    del _LOGBUF[:-20]
+
+            h = Mem(level=logging.DEBUG)
+            saved = []
+            dis = logging.root.manager.disable
+            logging.disable(logging.NOTSET)
+            for nm in ("pyubx2", "pynmeagps", "pyrtcm"):
+                lg = logging.getLogger(nm)
+                saved.append((lg, lg.level, lg.propagate))
+                lg.setLevel(logging.DEBUG)
+                lg.addHandler(h)
+                lg.propagate = False
+            try:
+                yield
+            finally:
+                for lg, lvl, prop in saved:
+                    lg.removeHandler(h)
+                    lg.setLevel(lvl)
+                    lg.propagate = prop
+                logging.disable(dis)
+        elif name == "decimal-ctx":
+            import decimal
+
+            with decimal.localcontext() as ctx:
+                ctx.prec = 6
+                ctx.rounding = decimal.ROUND_DOWN
+                yield
+        elif name == "tz-dst":
+            import time as _t
+
+            old = os.environ.get("TZ")
+            os.environ["TZ"] = "EST5EDT,M3.2.0,M11.1.0"
+            _t.tzset()
+            try:
+                yield
+            finally:
+                if old is None:
+                    os.environ.pop("TZ", None)
+                else:
+                    os.environ["TZ"] = old
+                _t.tzset()
+        else:
+            yield
+    finally:
+        CURRENT_ENV[0] = prev
+
+
+def log_off():
+    """Silence the packages' loggers (ERR_LOG reports would reach stderr) - except
+    in the log-debug environment, whose point is that logging is on."""
+    import logging
+
+    if CURRENT_ENV[0] != "log-debug":
+        logging.disable(logging.CRITICAL)
+
+
+def log_on():
+    import logging
+
+    if CURRENT_ENV[0] != "log-debug":
+        logging.disable(logging.NOTSET)
+
+
+def env_pick(case, one_in=4):
+    """Deterministic choice of an environment for a directly enumerated case."""
+    h = digest(case)
+    if h % one_in:
+        return None
+    return ENVS[(h // one_in) % len(ENVS)]
+
+
+def checked(check, case, env="pick"):
+    """check(case) under an environment; the replay case carries the choice."""
+    if env == "pick":
+        env = env_pick(case)
+    if env is None:
+        return check(case)
+    wrapped = {"$env": env, "$case": case}
+    out = run_with_history(wrapped, check)
+    if out.replay_case is None:
+        out.replay_case = wrapped
+    return out
+
+
 def run_with_history(case, check):
     """Cases of the form {"$history": [ops], "$case": case}: the operations run
     first (their outcome is ignored), then the case is checked - the result must
     not depend on what the process did before."""
+    if isinstance(case, dict) and "$env" in case:
+        with environment(case["$env"]):
+            out = run_with_history(case["$case"], check)
+        out.classes = list(out.classes) + [f"env={case['$env']}"]
+        return out
     if isinstance(case, dict) and "$history" in case:
         from vp.props import c13
 
@@ -300,7 +423,7 @@ def run_with_history(case, check):
     return check(case)
 
 
-def hyp_search(acc: Acc, strategy, check, *, seed, max_examples, known, rounds=3, shrink=True, history=None):
+def hyp_search(acc: Acc, strategy, check, *, seed, max_examples, known, rounds=3, shrink=True, history=None, envs=True):
     """Drive `check` (case -> Out) with Hypothesis.  Violations whose key is a
     known finding are tallied and the case passes; the first unlisted key fails
     the example, is shrunk and recorded; the search then restarts with that key
@@ -318,6 +441,16 @@ def hyp_search(acc: Acc, strategy, check, *, seed, max_examples, known, rounds=3
 
         def check(case):  # noqa: F811
             return run_with_history(case, inner_check)
+
+    if envs:
+        from hypothesis import strategies as _st
+
+        env_inner = check
+        strategy = strategy.flatmap(lambda c: _st.one_of(
+            _st.just(c), _st.just(c), _st.sampled_from(ENVS).map(lambda e, c=c: {"$env": e, "$case": c})))
+
+        def check(case):  # noqa: F811
+            return run_with_history(case, env_inner)
 
     found = set()
     for rnd in range(rounds):
